@@ -8,7 +8,8 @@ import numpy as np
 def assert_repo():
     import permute
     p = os.path.realpath(permute.__file__)
-    assert p.startswith("/repo/"), f"permute imported from {p}, not /repo"
+    repo = os.path.realpath(os.environ.get("VERIF_REPO", "/repo"))   # VERIF_REPO: tools/try_patch.sh only
+    assert p.startswith(repo + "/"), f"permute imported from {p}, not {repo}"
 
 
 EXN = {"ValueError": "ValueError", "TypeError": "TypeError", "NameError": "NameError",
@@ -114,3 +115,25 @@ class Dist:
 
     def out(self):
         return self.d
+
+
+# ---- interned argument arrays ---------------------------------------------------------------------------
+# A user typically passes the SAME ndarray object to several calls (other method, other combiner, other flag).
+# Arrays with equal content are therefore shared between cases, so that results depending on the call history
+# (memoisation keyed by object identity, in-place writes into arguments) are exposed by the stateless model.
+_POOL = {}
+
+
+def interned(a):
+    a = np.asarray(a)
+    k = (str(a.dtype), a.shape, a.flags["C_CONTIGUOUS"], a.tobytes())
+    hit = _POOL.get(k)
+    if hit is not None:
+        if hit[0].tobytes() == k[3]:
+            return hit[0]
+        hit[0][...] = hit[1]        # a callee wrote into it (reported by the 'unmodified' checks): restore
+        return hit[0]
+    if len(_POOL) > 20000:
+        _POOL.clear()
+    _POOL[k] = (a, a.copy())
+    return a
